@@ -205,17 +205,18 @@ void mzd_row_add(mzd_t *M, rci_t sourcerow, rci_t destrow) {
 
 void mzd_row_clear_offset(mzd_t *M, rci_t row, rci_t coloffset) {
   wi_t const startblock = coloffset / m4ri_radix;
-  word temp;
   word *truerow = mzd_row(M, row);
-  /* make sure to start clearing at coloffset */
-  if (coloffset % m4ri_radix) {
-    temp = truerow[startblock];
-    temp &= __M4RI_RIGHT_BITMASK(m4ri_radix - coloffset);
+  /* make sure to start clearing at coloffset: keep the columns below it in the first word */
+  word const keep_begin = (coloffset % m4ri_radix) ? __M4RI_LEFT_BITMASK(coloffset % m4ri_radix) : 0;
+  /* ... and to stop at ncols: bits beyond the last column may belong to a parent matrix */
+  word const keep_end = ~M->high_bitmask;
+  if (startblock == M->width - 1) {
+    truerow[startblock] &= (keep_begin | keep_end);
   } else {
-    temp = 0;
+    truerow[startblock] &= keep_begin;
+    for (wi_t i = startblock + 1; i < M->width - 1; ++i) { truerow[i] = 0; }
+    truerow[M->width - 1] &= keep_end;
   }
-  truerow[startblock] = temp;
-  for (wi_t i = startblock + 1; i < M->width; ++i) { truerow[i] = 0; }
 
   __M4RI_DD_ROW(M, row);
 }
